@@ -42,6 +42,10 @@ Allowed(s, v) ==
 \* (Assume(s, v): the known order of the levels / bands the rule compares against)
 Exclusive == \A s \in Strategies : \A v \in Vals(s) : (~Exempt(v) /\ Assume(s, v)) => ~(BuyIf(s, v) /\ SellIf(s, v))
 \* every strategy can recommend each of Buy and Sell for some valuation (the table is not vacuous)
+\* C18 on the documented rules: every comparison is between quantities of the same degree of homogeneity in price and in
+\* volume, or against the literal 0 - so no documented recommendation depends on the currency or volume unit
+Dimensional == \A s \in Strategies : \A i \in 1..NAtoms(s) :
+                 LET l == AtomDims(s)[i][1] r == AtomDims(s)[i][2] IN l[3] \/ r[3] \/ (l[1] = r[1] /\ l[2] = r[2])
 NotVacuous == \A s \in Strategies : (\E v \in Vals(s) : ~Exempt(v) /\ BuyIf(s, v)) /\
                                     (NoSell(s) \/ \E v \in Vals(s) : ~Exempt(v) /\ SellIf(s, v))
 
